@@ -15,6 +15,8 @@ struct Child {
 };
 void setPipeCapacity(size_t bytes);
 void setStdinReadable(bool readable);       // whether the simulated process's own descriptor 0 counts as readable in select()
+uint64_t exitInChildCount();                // exit() (instead of _exit) calls made between vfork and exec in this run
+void setParentStdoutPending(const char* bytes);   // configuration: what the parent's stdio holds un-flushed for its own stdout (an exit() in the vfork child flushes it into the CHILD's descriptor 1)
 uint64_t vforkFailureCount();               // injected vfork failures in this run
 void setChildMain(void (*fn)(Child*));     // scripted program run by every exec'ed child (harness-supplied); sets c->exitCode
 const std::vector<Child*>& allChildren();
